@@ -185,7 +185,8 @@ SETTERS = ['href', 'protocol', 'username', 'password', 'host', 'hostname', 'port
            'clear_port', 'clear_search', 'clear_hash']
 STARTS = ['a:/.//p?q#f', 'a:/.//?q', 'web+demo:/.//not-a-host/#frag', 'http://example.com/', 'https://u:p@h.example:8080/a/b?q=1#f', 'http://1.2.3.4/x', 'http://[::1]/', 'ws://h:81/', 'ftp://u@h/',
           'file:///C:/x/y', 'file://host/p', 'file:///', 'a://h/p?q#f', 'a://u:p@h:9/p', 'a:///p', 'a:/p', 'a:/.//p', 'a://h', 'a:opaque',
-          'a:opaque?q#f', 'mailto:u@h', 'blob:https://h/id', 'a://', 'wss://h/', 'http://h//a//b', 'a:/', 'http://h/?#', 'file:///C|/x']
+          'a:opaque?q#f', 'mailto:u@h', 'blob:https://h/id', 'a://', 'wss://h/', 'http://h//a//b', 'a:/', 'http://h/?#', 'file:///C|/x',
+          'foo:/.//p?q#', 'a:/.//?#', 'a:/.//p#', 'a://h/?#', 'file:///C:', 'http://127.0.0.1:8080/a/b?q#f', 'foo://[::1]:9/x?#']
 VALUES = {
     'protocol': ['http', 'https', 'ws', 'wss', 'ftp', 'file', 'a', 'b:', 'http:', 'https://x', 'HTTP', 'fi le', '', ':', '1a', 'a+b-c.d', 'a\tb', 'x\u00e9', 'h\nttp', 'http:80', 'file:', 'FILE'],
     'username': USERS + ['x' * 17],
